@@ -4,6 +4,7 @@
 -/
 import MotoModel.Proofs.DiskReport
 import MotoModel.Proofs.DiskCount
+import MotoModel.Proofs.DiskEvents
 import MotoModel.Props.C02
 import MotoModel.Props.C01
 namespace Moto.C12
@@ -163,5 +164,30 @@ theorem create_total_is_files_extracted (w : Tape.World) (verbose : Bool) (srcs 
     rw [C02.fresh_has_no_file k j hk hj]
     simp
   omega
+
+open Moto.Disk in
+/-- **C12 (create/add: the report is the replay of events that depend on the image and the sources
+    only)**: the listener at the end of a batch is the initial one (after "Side 0") played through
+    `batchEvents w srcs img` — a list computed from the files on disk, the sources and the image,
+    in which the verbosity does not enter: quiet and verbose reports describe the same events -/
+theorem update_report_is_replay (w : Tape.World) (verbose : Bool) (img : Image) (srcs : List Str) (st : Inj)
+    (h : performCore w verbose img srcs = .ok st) :
+    st.l = play (onBeginOfSide { processing := 2, verbose := verbose } 0) (batchEvents w srcs img) :=
+  performCore_events w verbose img srcs st h
+
+open Moto.Disk in
+/-- **C12 (each offered file is announced stored at most once, with its true size)**: the events of
+    one file are rounds of "announced, too big, side closed, next side opened" followed by at most
+    one "announced, stored"; every announcement carries the length of the data and the number of
+    blocks it needs, under the catalog name -/
+theorem one_file_events (name ext : Str) (kind flag : Nat) (data : Bytes) (img : Image) (cur : Nat) :
+    (fileEvents name ext kind flag data 4 img cur).countP LEv.isEndFile ≤ 1
+    ∧ (∀ e ∈ fileEvents name ext kind flag data 4 img cur,
+        e = .beginFile (evOf name ext kind flag data) ∨ e = .endFile (evOf name ext kind flag data) ∨ e = .abort (Tape.str "too big")
+        ∨ (∃ u, e = .endSide u) ∨ (∃ i, e = .beginSide i))
+    ∧ (evOf name ext kind flag data).bytes = data.length ∧ (evOf name ext kind flag data).blocks = reqBlocks data.length
+    ∧ (evOf name ext kind flag data).name = name ∧ (evOf name ext kind flag data).ext = ext :=
+  ⟨(fileEvents_shape name ext kind flag data 4 img cur).1, (fileEvents_shape name ext kind flag data 4 img cur).2,
+   evOf_facts name ext kind flag data⟩
 
 end Moto.C12
